@@ -526,10 +526,15 @@ func matchFilter(filter Filter, value interface{}) (bool, interface{}, error) {
 			return false, nil, nil
 		}
 		for _, enum := range filter.Enum {
-			f := Filter{
-				Type:  "string",
-				Const: &enum,
+			if filter.Const != nil && *filter.Const != enum {
+				// the value has to equal the const as well
+				continue
 			}
+			// the other keywords of the filter (pattern) apply as well
+			f := filter
+			f.Enum = nil
+			f.Type = "string"
+			f.Const = &enum
 			match, result, _ := matchFilter(f, value)
 			if match {
 				return true, result, nil
